@@ -220,6 +220,9 @@ func Parse(input string) (*Tree, error) {
 // Parse begins parsing, returning an error, if any.
 func (t *Tree) Parse() error {
 	go t.lex.tokenize()
+	// Let the lexer goroutine run to completion even when parsing stops early,
+	// otherwise it stays blocked on its channel forever.
+	defer t.lex.drain()
 	for {
 		n, err := t.parse()
 		if err != nil {
